@@ -58,7 +58,9 @@ CHECKS = {
                 'of the full listing by the closure of the filter; the unique listing has no repeated encoding and the same '
                 'encodings (first occurrences); frequency counts sum to the listing and have its keys; the keyed comment query '
                 'returns only lines with that prefix. Traversal order (pre-header comments, spines depth-first, later comments) '
-                'and is_monophonic are decided by correspondence and by an independent reading of the source text.',
+                'and is_monophonic are decided by correspondence and by an independent reading of the source text; that the listing '
+                'is the pre-order of the tree and visits every node exactly once is a theorem for every imported document '
+                '(C17_listing_is_preorder_each_node_once: explicit-stack DFS = structural pre-order = duplicate-free permutation of all ids).',
         'note': _COMMON_NOTE,
         'technique': 'Coq proof (list lemmas over the query model) + model/impl correspondence + reference-order monitor',
     },
@@ -92,7 +94,9 @@ CHECKS = {
                 'followed by a cell that depends on categories and encoding only; the row of a stage under a selection is the '
                 'row of the selected sub-list of nodes (order kept); unselected nodes never influence the row. Document level: '
                 'EVERY subset of spine ids and of spine types per document and the spine_types query, kernpy vs model and vs '
-                'the column projection of the generator\'s grid (origin column through splits and joins).',
+                'the column projection of the generator\'s grid (origin column through splits and joins). Whole spine paths: in every '
+                'imported document a HeaderToken node is its own header and every other node has the header type of its parent, so '
+                'both are selected or deleted together under every option set (C06_spine_path_shares_header, by induction over the rows).',
         'note': _COMMON_NOTE,
         'technique': 'Coq proof (filter-map fusion on the exporter model) + exhaustive-subset model/impl correspondence + oracle monitor',
     },
@@ -101,7 +105,8 @@ CHECKS = {
                 '[a,a+n) ++ rows of [a+n,a+n+m), each once, unmodified), a negative start / end beyond M / end before start '
                 'yields ValueError, and the measure index of every imported document is strictly increasing and addresses existing stages. Which stages a measure spans, the partition of the full export by the single-measure '
                 'exports and iteration are decided on EVERY pair a <= b of generated documents: kernpy vs model and vs the '
-                'generator\'s own measure segmentation. Known finding K10 (ragged signature rows raise).',
+                'generator\'s own measure segmentation. Partition at model level: the stage ranges between any increasing cut points '
+                'concatenate to the rows of the whole range (C07_segments_partition). Known finding K10 (ragged signature rows raise).',
         'note': _COMMON_NOTE,
         'technique': 'Coq proof (range composition, validator) + all-pairs model/impl correspondence + oracle monitor',
     },
@@ -152,7 +157,9 @@ CHECKS = {
                 'does not depend on which cells are malformed. Correspondence: histories on one importer instance vs the state '
                 'machine; damaged documents (tree + error list) vs the importer model. Monitors: one error per malformed kern '
                 'cell with its line number, other tokens untouched, verbatim re-export. Known finding K7 (valid prefix + garbage '
-                'accepted and shortened).',
+                'accepted and shortened). Document level, for every text that imports: the error list is exactly the list of the ErrorToken nodes '
+                '(each malformed cell once, nothing else), each carries its line number, the recogniser model never builds an '
+                'ErrorToken itself, ErrorTokens are exported verbatim (C12_errors_reported_once_with_line).',
         'note': _COMMON_NOTE + 'The recogniser is universally quantified in the theorems; cells outside CKL are outside the document-level model (their share is printed in the evidence).',
         'technique': 'Coq proof (state machine, parametric recogniser, regenerated listener flag) + history and damaged-document correspondence + monitors',
     },
